@@ -19,7 +19,7 @@ def run(ctx):
     ctx.assumptions += ["fmt/bytes/bufio are exercised, not modelled", "layout family per property text: LF/CRLF terminators, "
                         "blank lines after lines, final newline kept/dropped, any re-wrapping"]
     thorough = ctx.tier == "thorough"
-    ctx.model_check("MC_Fasta", "MC_Fasta_machine8" if thorough else "MC_Fasta_machine6", workers=8)
+    ctx.model_check("MC_Fasta", "MC_Fasta_machine9" if thorough else "MC_Fasta_machine6", workers=8)
     ctx.model_check("MC_Fasta", "MC_Fasta_layout_t" if thorough else "MC_Fasta_layout_q", workers=16 if thorough else 8,
                     heap="8g", timeout=3000)
     # leg R
@@ -34,7 +34,7 @@ def run(ctx):
     codec.replay_cases(ctx, "fasta-replay", cc, "fasta layout", lambda c: "recs=%s text=%s" % (c["recs"], bytes(c["text"])))
     vlib.log("  [R] %d finished layouts of the model read by the real Reader (A,B -> %s)" % (len(cc), [amap[65], amap[66]]))
     # leg T
-    leg_T(ctx, 400 if thorough else 60)
+    leg_T(ctx, 1500 if thorough else 60)
     ctx.exhaustive = True
 
 
